@@ -3,7 +3,8 @@
 from __future__ import annotations
 
 import math
-from typing import TYPE_CHECKING, ClassVar, Literal
+from copy import deepcopy
+from typing import TYPE_CHECKING, ClassVar, Literal, Self
 from warnings import warn
 
 import numpy as np
@@ -118,19 +119,53 @@ class ForceBias(SingleDriver):
             A dictionary containing the state of the ForceBias object, including the random number generator state,
         """
         dictionary = super().to_dict()
+        dictionary["atoms"] = self.atoms.copy()
         dictionary["rng_state"] = self._rng.bit_generator.state
 
-        dictionary.setdefault("kwargs", {})
-        dictionary["kwargs"] = {
-            "seed": self._seed,  # type: ignore
-            "temperature": self.temperature,
-            "delta": self.delta,
-        }
+        dictionary.setdefault("kwargs", {}).update(
+            {
+                "seed": self._seed,  # type: ignore
+                "temperature": self.temperature,
+                "delta": self.delta,
+            }
+        )
 
-        dictionary.setdefault("attributes", {})
-        dictionary["attributes"]["masses_scaling_power"] = self.masses_scaling_power
+        attributes = dictionary.setdefault("attributes", {})
+        attributes["masses_scaling_power"] = self.masses_scaling_power
+        attributes["shaped_masses"] = self.shaped_masses
 
         return dictionary
+
+    @classmethod
+    def from_dict(cls, data: dict[str, Any], **kwargs_override: Any) -> Self:
+        """
+        Create a `ForceBias` object from a dictionary, e.g. the content of a restart
+        file. The calculator is not serialized and must be attached again.
+
+        Parameters
+        ----------
+        data : dict[str, Any]
+            The dictionary representation of the object.
+        **kwargs_override : Any
+            Additional keyword arguments to override the ones in the dictionary.
+
+        Returns
+        -------
+        Self
+            The `ForceBias` object created from the dictionary.
+        """
+        data = deepcopy(data)
+
+        kwargs = data.get("kwargs", {})
+        kwargs = kwargs | kwargs_override
+
+        simulation = cls(data["atoms"], **kwargs)
+        simulation._rng.bit_generator.state = data["rng_state"]
+
+        for key, value in data.get("attributes", {}).items():
+            setattr(simulation, key, value)
+
+        return simulation
 
     @property
     def masses_scaling_power(self) -> ShapedMasses | float:
@@ -374,6 +409,39 @@ class AdaptiveForceBias(ForceBias):
                 self.default_logger.add_field(
                     "EnergyVar", lambda: self.variation_coef, str_format="{:>16.6f}"
                 )
+
+    def validate_simulation(self) -> None:
+        """Make sure that the calculator results, which hold the committee values,
+        describe the current configuration, e.g. after a restart with a freshly attached
+        calculator."""
+        self.atoms.get_forces()
+
+        super().validate_simulation()
+
+    def to_dict(self) -> dict[str, Any]:
+        """
+        Convert the `AdaptiveForceBias` object to a dictionary.
+
+        Returns
+        -------
+        dict[str, Any]
+            A dictionary containing the state of the `AdaptiveForceBias` object. `delta` is not a constructor parameter (it is recalculated at each step) and is stored as an attribute.
+        """
+        dictionary = super().to_dict()
+
+        kwargs = dictionary["kwargs"]
+        dictionary["attributes"]["delta"] = kwargs.pop("delta")
+        kwargs.update(
+            {
+                "min_delta": self.min_delta,
+                "max_delta": self.max_delta,
+                "scheme": self.scheme,
+                "reference_variance": self.reference_variance,
+                "update_function": self.update_function,
+            }
+        )
+
+        return dictionary
 
     def update_delta(self) -> None:
         """
